@@ -2,4 +2,4 @@ From Coq Require Import Extraction ExtrOcamlBasic.
 From F8 Require Import Base.Conv C30.Mpmc C30.Spec_C30.
 Extraction Language OCaml.
 Extraction "../ocaml/gen/C30/model.ml" keep_types exec slot_run norm_nq default_nq
-  all_progs c30_ok c30_final_ok slot_ok free_ok.
+  all_progs c30_ok c30_final_ok slot_ok free_ok backlog_ok.
